@@ -127,7 +127,51 @@ class SymEval:
             return self.ev(e.args[0])
         raise SymError(f"unsupported expression {norm_src(e)}")
 
+    def _lin_truth(self, v) -> bool:
+        """Truthiness of a count: decidable when it is 0 or (non-negative symbols + a positive constant)."""
+        v = lin(v)
+        if not v.t and v.c == 0:
+            return False
+        if all(c >= 0 for c in v.t.values()) and v.c > 0:
+            return True
+        if all(c <= 0 for c in v.t.values()) and v.c < 0:
+            return True
+        raise SymError(f"truth value of the symbolic count {v!r} is not decided on this path")
+
+    def _set_const(self, node):
+        if isinstance(node, ast.Set):
+            return {e.value for e in node.elts if isinstance(e, ast.Constant)}
+        if isinstance(node, ast.Name):
+            exprs = self.fn.module.assigns.get(node.id, [])
+            if len(exprs) == 1 and isinstance(exprs[0], ast.Set):
+                return {e.value for e in exprs[0].elts if isinstance(e, ast.Constant)}
+        raise SymError(f"flag set {norm_src(node)} not a constant")
+
     def test(self, t) -> bool:
+        if isinstance(t, ast.BoolOp):
+            vals = [self.test(v) for v in t.values]
+            return all(vals) if isinstance(t.op, ast.And) else any(vals)
+        if isinstance(t, ast.Call) and isinstance(t.func, ast.Attribute) and t.func.attr in ("isdisjoint",) and len(t.args) == 1:
+            if self.ev(t.func.value) == "FLAGS":
+                names = self._set_const(t.args[0])
+                self.flag_names |= names & set(self.flags)
+                return not any(self.flags.get(n, False) for n in names)
+        if isinstance(t, ast.Compare) and len(t.ops) == 1 and not isinstance(t.ops[0], (ast.In, ast.NotIn)):
+            l, r = self.ev(t.left), self.ev(t.comparators[0])
+            if isinstance(l, (Lin, int)) and isinstance(r, (Lin, int)):
+                d = lin(l) - lin(r)
+                op = t.ops[0]
+                if isinstance(op, (ast.Eq, ast.NotEq)):
+                    z = not self._lin_truth(d)
+                    return z if isinstance(op, ast.Eq) else not z
+                if not d.t:
+                    return {ast.Lt: d.c < 0, ast.LtE: d.c <= 0, ast.Gt: d.c > 0, ast.GtE: d.c >= 0}[type(op)]
+                pos = self._lin_truth(d) and (all(c >= 0 for c in d.t.values()) and d.c > 0)
+                return {ast.Gt: pos, ast.GtE: pos, ast.Lt: not pos, ast.LtE: not pos}[type(op)]
+        if isinstance(t, (ast.Name, ast.Attribute)):
+            v = self.ev(t)
+            if isinstance(v, (Lin, int)):
+                return self._lin_truth(v)
         if isinstance(t, ast.UnaryOp) and isinstance(t.op, ast.Not):
             return not self.test(t.operand)
         if isinstance(t, ast.Compare) and len(t.ops) == 1 and isinstance(t.ops[0], (ast.In, ast.NotIn)) and isinstance(t.left, ast.Constant):
@@ -313,12 +357,18 @@ def run(an: Analysis, rep):
 
 def r041(an, rep):
     fn = find_args_decoder(an)
-    P, A, K = Lin(P=1), Lin(A=1), Lin(K=1)
-    syms = {"argcount": A, "posonlyargcount": P, "kwonlyargcount": K, "varnames": Seq(Lin(0)), "flags_data": "FLAGS"}
     ai = an.prog.cls("code_data._args::ArgsInput")
-    if {f.name for f in ai.fields} != set(syms):
+    if {f.name for f in ai.fields} != {"argcount", "posonlyargcount", "kwonlyargcount", "varnames", "flags_data"}:
         raise AnalysisError(f"ArgsInput fields changed: {[f.name for f in ai.fields]}")
-    for va, vk in itertools.product([False, True], repeat=2):
+    # each count is either 0 or (a symbol >= 0) + 1, so that a test on a count (`if not kwonlyargcount`) is decided on every variant
+    variants = []
+    for zp, zq, zk in itertools.product((True, False), repeat=3):
+        P = Lin(0) if zp else Lin(1, p=1)
+        Q = Lin(0) if zq else Lin(1, q=1)
+        K = Lin(0) if zk else Lin(1, k=1)
+        variants.append((P, P + Q, K, f"posonly{'=0' if zp else '>0'},pos_or_kw{'=0' if zq else '>0'},kwonly{'=0' if zk else '>0'}"))
+    for (P, A, K, vdesc), (va, vk) in itertools.product(variants, itertools.product([False, True], repeat=2)):
+        syms = {"argcount": A, "posonlyargcount": P, "kwonlyargcount": K, "varnames": Seq(Lin(0)), "flags_data": "FLAGS"}
         se = SymEval(fn, {"VARARGS": va, "VARKEYWORDS": vk}, syms)
         try:
             se.run(fn.node.body)
@@ -339,6 +389,11 @@ def r041(an, rep):
         path = f"VARARGS={'1' if va else '0'},VARKEYWORDS={'1' if vk else '0'}"
         for fld, w in want.items():
             got = se.result.get(fld)
+            if got is None and fld not in se.result:
+                # field left at its default: () for the tuple fields, None for the two names
+                got = None if fld in ("var_positional", "var_keyword") else Seq(Lin(0), Lin(0))
+            if isinstance(got, Seq) and isinstance(w, tuple) and w[0] == "seq" and lin(got.hi if got.hi != END else 0) - got.lo == Lin(0) and w[2] - w[1] == Lin(0):
+                got = Seq(w[1], w[2])  # two empty slices are the same value wherever they start
             if isinstance(got, Seq):
                 g = ("seq", got.lo, got.hi)
             elif isinstance(got, Elem):
@@ -507,19 +562,39 @@ def r045(an, rep):
                 if "docstring" not in kws:
                     continue
                 e = inline_locals(f.node, kws["docstring"], keep_calls=True)
-                free = sorted({x.id for x in ast.walk(e) if isinstance(x, ast.Name)} - {"isinstance", "str", "len", "type"})
-                if len(free) != 1:
-                    raise AnalysisError(f"{f.qual}: docstring expression {norm_src(e)} has free names {free}")
+                from sa.feval import PureEval
+
+                def resolve(name, _f=f):
+                    r = an.prog.resolve_global(_f.module, name, _f)
+                    return r[1].node if r and r[0] == "func" else None
+                pe = PureEval(resolve)
+                free = sorted({x.id for x in ast.walk(e) if isinstance(x, ast.Name)} - {"isinstance", "str", "len", "type", "bool"} - {n_ for n_ in {x.id for x in ast.walk(e) if isinstance(x, ast.Name)} if resolve(n_) is not None})
+                # the table of constants is the name subscripted with 0; every other free local is modelled as an Args value
+                tabs = {x.value.id for x in ast.walk(e) if isinstance(x, ast.Subscript) and isinstance(x.value, ast.Name) and isinstance(x.slice, ast.Constant) and x.slice.value == 0}
+                if len(tabs) != 1:
+                    raise AnalysisError(f"{f.qual}: docstring expression {norm_src(e)}: constants table not recognised")
+                tab = tabs.pop()
+                others = [x for x in free if x != tab]
+                args_models = [
+                    {"positional_only": (), "positional_or_keyword": ("a",), "var_positional": None, "keyword_only": (), "var_keyword": None},
+                    {"positional_only": (), "positional_or_keyword": (".0",), "var_positional": None, "keyword_only": (), "var_keyword": None},
+                    {"positional_only": (), "positional_or_keyword": (), "var_positional": "args", "keyword_only": ("k",), "var_keyword": "kw"},
+                    {"positional_only": (), "positional_or_keyword": (), "var_positional": None, "keyword_only": (), "var_keyword": None},
+                ]
                 bad = []
                 cases = [(), ("d",), (1,), (None, "x"), (b"x",), ("", 1), (("a",),)]
                 for c in cases:
-                    try:
-                        got = feval(e, {free[0]: c, "isinstance": isinstance, "str": str, "len": len, "type": type})
-                    except Exception as ex:
-                        got = f"<{type(ex).__name__}>"
-                    want = c[0] if c and type(c[0]) is str else None
-                    if got != want:
-                        bad.append(f"constants={c!r}: docstring={got!r}, CPython's __doc__ is {want!r}")
+                    for am in (args_models if others else [None]):
+                        env = {tab: c}
+                        for o in others:
+                            env[o] = am
+                        try:
+                            got = pe.ev(e, env)
+                        except Exception as ex:
+                            raise AnalysisError(f"{f.qual}: docstring expression {norm_src(e)} not evaluable: {ex}")
+                        want = c[0] if c and type(c[0]) is str else None
+                        if got != want:
+                            bad.append(f"constants={c!r}" + (f", parameters {am['positional_or_keyword'] + am['keyword_only']}" if am else "") + f": docstring={got!r}, CPython's __doc__ is {want!r}")
                 done = True
                 rep.add("R04.5", f"{f.qual}::docstring rule", not bad, loc(f.module, kws["docstring"]),
                         "; ".join(bad[:2]) if bad else f"docstring = {norm_src(e)} agrees with func_new on {len(cases)} constant tables")
